@@ -33,6 +33,15 @@ def m_obligations(tier):
         obs.append(dict(id=f"FXPair::try_new({a},{b})", kind="fxpair", a=a, b=b))
     for wm in ([], [0], [5, 6], [0, 1, 2, 3, 4, 5], [6, 6], [7], [0, 255]):
         obs.append(dict(id=f"Cal::new week mask {wm}", kind="cal_new", wm=wm))
+    # load-time reconstruction of derived state (what serde hands over after parsing a document whose fields or values were altered)
+    for nm in ["tgt", "tgt,ldn|nyc", "xyz", "", "tgt|nyc|ldn", "tgt,", "tgt|xyz", "TGT"]:
+        obs.append(dict(id=f"load NamedCal saved as name={nm!r}", kind="reload_cal", name=nm))
+    from specs.fx_common import structures, ccy_order
+    for q in (1, 2):
+        for pairs, base, k in structures(q, with_base=False):
+            order = ccy_order(pairs, None, k)
+            for tag, cur in (("as saved", order), ("empty", []), ("one missing", order[:-1]), ("reversed", order[::-1]), ("extra unknown", order + [k])):
+                obs.append(dict(id=f"load FXRates saved quotes {pairs} currencies {tag} {cur}", kind="reload_fx", pairs=pairs, cur=cur, k=k))
     # spline solving: site-count mismatches must be Err, never an abort (obligations shared with C15)
     from specs import C15
     for o in C15.obligations(tier):
@@ -109,6 +118,19 @@ def m_worker(ob):
                 props.append(("Err exactly for identical or malformed currencies", (r.variant == "Err") == bad))
             elif kind == "cal_new":
                 r = m.call_text("Cal::new", [Seq([]), Seq(ob["wm"])], [parse_type("Vec<NaiveDateTime>"), parse_type("Vec<u8>")], parse_type("Cal"))
+            elif kind == "reload_cal":
+                form, r = rebuild_on_load(m, "NamedCal", Struct("NamedCalDataModel", [Str(ob["name"])]))
+                props.append(("the loader returns a value or an error", form == "from" or r.variant in ("Ok", "Err")))
+            elif kind == "reload_fx":
+                from specs.fx_common import mk_quote, mk_ccy, number_f64, NAMES
+                rates = [z3.Real(f"r{i}") for i in range(len(ob["pairs"]))]
+                for r_ in rates:
+                    m.assume(r_ > 0)
+                info["rates"] = rates
+                quotes = [mk_quote(m, S, a, b, number_f64(S, rates[i]), NONE) for i, (a, b) in enumerate(ob["pairs"])]
+                by = {"fx_rates": Seq(quotes), "currencies": SetV([mk_ccy(m, NAMES[c]) for c in ob["cur"]])}
+                form, r = rebuild_on_load(m, "FXRates", Struct("FXRatesDataModel", [by[f] for f in S.structs["FXRatesDataModel"]]))
+                props.append(("the loader returns a value or an error", form == "from" or r.variant in ("Ok", "Err")))
         except RustPanic as e:
             within = not (kind == "cal_new" and any(x > 6 for x in ob["wm"]))   # week masks 0-6 are the documented range
             if within:
@@ -134,6 +156,22 @@ def m_worker(ob):
                             r0 = o.get("results", [None])[0]
                             if isinstance(r0, dict) and r0.get("panic"):
                                 out["mismatch"].append(f"{prof}: {ob['fn']}(days={nv}) aborts (panic)")
+                        out["reproduced"] = bool(out["mismatch"])
+                    elif kind in ("reload_cal", "reload_fx"):
+                        if kind == "reload_cal":
+                            doc = {"NamedCal": {"name": ob["name"]}}
+                        else:
+                            from specs.fx_common import NAMES
+                            rv_ = [float(mval(model, r_)) if model is not None else 1.5 for r_ in info["rates"]]
+                            doc = {"FXRates": {"fx_rates": [{"pair": [{"name": NAMES[a]}, {"name": NAMES[b]}], "rate": {"F64": rv_[i]}, "settlement": None} for i, (a, b) in enumerate(ob["pairs"])],
+                                               "currencies": [{"name": NAMES[c]} for c in ob["cur"]]}}
+                        sc = {"kind": "json_tagged", "text": json.dumps(doc)}
+                        out["scenario"] = sc
+                        for prof in ("dev", "release"):
+                            o = native_run([sc], prof)[0]
+                            out["native"][prof] = o
+                            if o.get("panic"):
+                                out["mismatch"].append(f"{prof}: from_json aborts (panic) on the document {sc['text'][:160]}")
                         out["reproduced"] = bool(out["mismatch"])
                     elif kind == "cal_new":
                         sc = {"kind": "cal", "cal": {"type": "cal", "holidays": [], "weekmask": ob["wm"]}, "ops": []}
@@ -163,6 +201,10 @@ def role_of_m(f):
     ob = f.get("ob", "")
     if "add_days" in ob and f.get("n") == -128:
         return {"site": "DateRoll::add_days", "input_class": "days = i8::MIN"}
+    if ob.startswith("load NamedCal"):
+        return {"site": "From<NamedCalDataModel>", "input_class": "saved name that try_new refuses"}
+    if ob.startswith("load FXRates"):
+        return {"site": "From<FXRatesDataModel>", "input_class": "saved quotes/currencies that try_new refuses or an empty currency list"}
     return {"site": ob.split(" every")[0].split(" n in")[0], "input_class": str(f.get("n", ""))}
 
 
@@ -213,14 +255,14 @@ def run(tier, seed):
            kani_harnesses=[{"harness": h, "status": res[h]["status"], "checks": res[h].get("checks"), "solver_s": res[h].get("solver_s"), "inputs": out["schema"][h]} for h in harnesses],
            functions_encoded=sorted(tot["fns"]), library_models=sorted(tot["models"]),
            bounds={"K": "add_days (quick) + add_bus_days, lag, add_months, get_roll (thorough): EVERY i8 day count / month offset in range, 6 anchor dates, all modifiers, all-business calendar",
-                   "M": "add_days/add_bus_days/lag: every i8 count on an every-day-eligible calendar and n in -2..2 on arbitrary calendars with gap<=2; roll: 5 modifiers gap<=3; Dual/Dual2::try_new: |vars| 0..3 (duplicates allowed), |dual| 0..4, |dual2| 0..10; Ccy/FXPair/Cal::new: enumerated strings and week masks",
-                   "outside": "JSON texts (serde_json parser and derive visitors are not encoded - see DESIGN §3.20, §4); FXRates/NamedCal/PPSpline constructors are exercised under C09/C06/C15; load-time From<..DataModel> conversions: see known findings / DESIGN §5"},
+                   "M": "add_days/add_bus_days/lag: every i8 count on an every-day-eligible calendar and n in -2..2 on arbitrary calendars with gap<=2; roll: 5 modifiers gap<=3; Dual/Dual2::try_new: |vars| 0..3 (duplicates allowed), |dual| 0..4, |dual2| 0..10; Ccy/FXPair/Cal::new: enumerated strings and week masks; load-time reconstruction (the conversion serde calls after parsing): NamedCal documents with 8 saved names (valid, unknown, empty, two pipes, trailing comma, upper case), FXRates documents for EVERY quote-list structure with 1..2 quotes (trees and non-trees) x currency list as saved / empty / one missing / reversed / with an unknown extra, symbolic rates",
+                   "outside": "the JSON TEXT level (serde_json parser and derive visitors are not encoded - see DESIGN §3.20, §4): altered documents are represented by the data-model value the parser hands to the crate's conversion, which covers altered/deleted/duplicated VALUES of well-typed fields but not type-level damage (a missing field, a string where a number is expected), which serde rejects before any crate code runs; FXRates/NamedCal/PPSpline constructors are exercised under C09/C06/C15"},
            obligations=len(harnesses) + len(obs), discharged=len(okh) + sum(1 for r in results if r and not r.get("error") and not r.get("fails") and not r.get("undecided")),
            evaluations=sum(r.get("checks", 0) or 0 for r in res.values()) + tot["checks"] + tot["paths"], distinct_nontrivial=len(okh) + tot["paths"],
            rule="K: one obligation per harness (all inputs symbolic, any failed CBMC check = reachable abort). M: obligation = (function, input sizes); every explored path must end in Ok/Err (shape invariant checked on Ok), a Panic leaf inside the documented input range is a violation after native replay",
            samples=[{"obligation": r["ob"], "paths": r.get("paths"), "leaf_kinds": r.get("leaf_kinds")} for r in results[:: max(1, len(results) // 10)] if r],
            queries={"feasibility": tot["feas_checks"], "validity": tot["checks"]}, solver_time_s=round(tot["solver_s"] + sum(r.get("solver_s", 0) or 0 for r in res.values()), 2))
-    ev.assume("Kani stubs: PyErr::new -> zeroed token, catch_unwind -> direct call", "mirsym library models; model calendar predicates arbitrary", "JSON text mutations are outside the claim (partial property)")
+    ev.assume("Kani stubs: PyErr::new -> zeroed token, catch_unwind -> direct call", "mirsym library models; model calendar predicates arbitrary", "JSON documents are modelled at the data-model level (what serde hands to the crate after parsing); the parser and derive visitors themselves are outside the claim (partial property)")
     C.finish(ev, violations, undecided[:30], sorted(set(known_lines)))
 
 
